@@ -234,6 +234,12 @@ fn judge(st: &mut Stats, mode: MinMode, res: &(Result<(), String>, Option<Vec<u8
         MinMode::M2s => check_m2s(&data, recs, w, m),
     };
     match r {
+        Err((sig, msg)) if sig == "HARNESS.s2m_parse" => {
+            // the statement fixes the shape of an s2m line (id, then m-mer:start-end items): a line that
+            // is not of that shape (e.g. two records' fragments interleaved) violates it
+            st.violate("s2m.malformed_line", msg, case());
+            false
+        }
         Err((sig, msg)) if sig.starts_with("HARNESS.") => {
             st.inconclusive(format!("output could not be parsed ({}): {}", sig, msg));
             false
@@ -391,6 +397,7 @@ pub fn cli(ctx: &Ctx) -> Stats {
             MinMode::M2s => check_m2s(&data, &recs, w, m),
         };
         match r {
+            Err((sig, msg)) if sig == "HARNESS.s2m_parse" => st.violate("cli.s2m.malformed_line", msg, case()),
             Err((sig, msg)) if sig.starts_with("HARNESS.") => st.inconclusive(format!("unparseable: {}", msg)),
             Err((sig, msg)) => st.violate(&format!("cli.{}", sig), msg, case()),
             Ok(()) => {
@@ -400,4 +407,30 @@ pub fn cli(ctx: &Ctx) -> Stats {
             }
         }
     })
+}
+
+/// stress without any sink (for the ThreadSanitizer flavour): many records sharing few minimisers,
+/// 16 workers, both modes
+pub fn stress(ctx: &Ctx) -> Stats {
+    let mut st = Stats::new();
+    let n = ctx.n(30, 120);
+    for i in 0..n {
+        if ctx.expired() {
+            st.truncated = true;
+            break;
+        }
+        let mut rng = Rng::keyed(ctx.seed, "c10.stress", i);
+        let (recs, w, m) = gen_case(&mut rng, 300, false);
+        let sc = Scratch::new(ctx, "c10s");
+        let inp = sc.write("in.fa", &ser::to_fasta(&recs, &SerOpts::plain()));
+        let mode = if i % 2 == 0 { MinMode::S2m } else { MinMode::M2s };
+        st.case(recs.len() >= 2, mix(i) ^ hash_bytes(&recs[0].seq));
+        st.class(&format!("{:?}", mode));
+        let res = run_min(mode, w, m, &inp, &sc.path("out.txt"), 16, None);
+        judge(&mut st, mode, &res, &recs, w, m, 16, "stress");
+        if i % 17 == 0 {
+            st.sample(Json::obj().set("w", Json::u(w)).set("m", Json::u(m)).set("records", Json::u(recs.len())).set("mode", Json::s(format!("{:?}", mode))));
+        }
+    }
+    st
 }
